@@ -2,7 +2,9 @@ import CentrifugeVerif.Spec.EventSource
 /-
 Model of the response body written by `SSEHandler.ServeHTTP` (`handler_sse.go`):
 after the headers the handler writes `"\r\n"` once, then for every batch received from the
-transport, for every message `"data: " + msg + "\n\n"`.  Nothing else is ever written to the body
+transport, for every message: raw CR bytes are removed from the message (commit 68b38e53: in a JSON
+text a raw CR can only be insignificant white space, and an EventSource parser would end the line
+there) and `"data: " + msg + "\n\n"` is written.  Nothing else is ever written to the body
 (pings are ordinary protocol messages `{}` handed to the transport like any other message).
 -/
 namespace CentrifugeVerif.SSE
@@ -10,8 +12,17 @@ open CentrifugeVerif.EventSource (Bytes ascii)
 
 def preamble : Bytes := [13, 10]
 
-/-- `"data: " + msg + "\n\n"` -/
-def frame (msg : Bytes) : Bytes := ascii "data: " ++ msg ++ [10, 10]
+/-- `bytes.ReplaceAll(msg, "\r", nil)` -/
+def stripCR (msg : Bytes) : Bytes := msg.filter (fun b => b != 13)
+
+/-- `"data: " + msg + "\n\n"` for bytes written as they are -/
+def rawFrame (msg : Bytes) : Bytes := ascii "data: " ++ msg ++ [10, 10]
+
+/-- what the handler writes for one message -/
+def frame (msg : Bytes) : Bytes := rawFrame (stripCR msg)
+
+/-- body for a list of byte strings framed as they are (the handler before 68b38e53) -/
+def rawBody (msgs : List Bytes) : Bytes := preamble ++ msgs.flatMap rawFrame
 
 /-- body for the messages handed to the transport, in order (batch boundaries do not show) -/
 def body (msgs : List Bytes) : Bytes := preamble ++ msgs.flatMap frame
